@@ -350,6 +350,20 @@ impl Ord for Value {
             return res;
         }
 
+        // Containers whose elements are not all comparable still need a total order that is
+        // consistent with `==`: compare them structurally with `cmp` on the elements.
+        match (&self.inner, &other.inner) {
+            (ValueInner::Array(a), ValueInner::Array(b)) => return a.iter().cmp(b.iter()),
+            (ValueInner::Map(a), ValueInner::Map(b)) => {
+                let mut a: Vec<_> = a.iter().collect();
+                let mut b: Vec<_> = b.iter().collect();
+                a.sort_by_key(|elem| elem.0);
+                b.sort_by_key(|elem| elem.0);
+                return a.cmp(&b);
+            }
+            _ => {}
+        }
+
         // Fallback: order by type for consistent ordering of incompatible types.
         // It's nonsensical but this way with the sort filter the None/undefined show up at the end
         fn type_order(v: &ValueInner) -> u8 {
